@@ -459,6 +459,9 @@ impl<T> Rc<T> {
                 // pointer while also handling drop logic by just crafting a
                 // fake Weak.
                 this.inner().dec_strong();
+                // The allocation stops being a live object without going
+                // through `Drop`: remove it from the adoption graph.
+                crate::drop::unlink(this.ptr);
                 let _weak = Weak {
                     ptr: this.ptr,
                     phantom: PhantomData,
@@ -917,6 +920,9 @@ impl<T: Clone> Rc<T> {
                 data.as_mut_ptr().copy_from_nonoverlapping(&**this, 1);
 
                 this.inner().dec_strong();
+                // The old allocation stops being a live object without going
+                // through `Drop`: remove it from the adoption graph.
+                crate::drop::unlink(this.ptr);
                 // Remove implicit strong-weak ref (no need to craft a fake
                 // Weak here -- we know other Weaks can clean up for us)
                 this.inner().dec_weak();
